@@ -9,6 +9,7 @@ import (
 	"net/url"
 	"os"
 	"reflect"
+	"strings"
 	"testing"
 
 	"verifharness/internal/cmpx"
@@ -161,6 +162,64 @@ func TestPinState(t *testing.T) {
 			t.Fatalf("state List differs: %s", cmpx.Diff(want, got))
 		}
 		leg.Case(want, optionalFields(p) >= 2, pinClasses(p)...)
+	})
+}
+
+// A whole state (what a Raft snapshot or a state export carries): several
+// pins written, serialised with Marshal, restored with Unmarshal into a
+// fresh in-memory state.
+func TestStateSnapshot(t *testing.T) {
+	leg := ev.L("state-snapshot", rulePin+"; 2-6 such pins on distinct CIDs written to one dsstate, Marshal, Unmarshal into an empty state over a fresh in-memory datastore, every pin read back with Get and List; non-trivial = at least two pins with >= 2 optional fields")
+	ctx := context.Background()
+	rapid.Check(t, func(t *rapid.T) {
+		n := rapid.IntRange(2, 6).Draw(t, "npins")
+		st, err := dsstate.New(dssync.MutexWrap(ds.NewMapDatastore()), "/x", nil)
+		if err != nil {
+			t.Fatal(err)
+		}
+		want := map[string]string{}
+		rich := 0
+		var all []string
+		for i := 0; i < n; i++ {
+			p := drawPin(t, leg)
+			p.Cid = gen.Cids[i]
+			if err := st.Add(ctx, p); err != nil {
+				t.Fatalf("Add: %v", err)
+			}
+			want[p.Cid.String()] = cmpx.PinStr(p, cmpx.Stored)
+			all = append(all, want[p.Cid.String()])
+			if optionalFields(p) >= 2 {
+				rich++
+			}
+		}
+		var buf bytes.Buffer
+		if err := st.Marshal(&buf); err != nil {
+			t.Fatalf("Marshal: %v", err)
+		}
+		st2, err := dsstate.New(dssync.MutexWrap(ds.NewMapDatastore()), "/x", nil)
+		if err != nil {
+			t.Fatal(err)
+		}
+		if err := st2.Unmarshal(bytes.NewReader(buf.Bytes())); err != nil {
+			t.Fatalf("Unmarshal of a marshalled state: %v", err)
+		}
+		l, err := st2.List(ctx)
+		if err != nil || len(l) != len(want) {
+			t.Fatalf("restored state lists %d pins (err %v), %d were written", len(l), err, len(want))
+		}
+		for _, q := range l {
+			if got := cmpx.PinStr(q, cmpx.Stored); got != want[q.Cid.String()] {
+				t.Fatalf("restored pin %s differs (List): %s", q.Cid, cmpx.Diff(want[q.Cid.String()], got))
+			}
+			g, err := st2.Get(ctx, q.Cid)
+			if err != nil {
+				t.Fatalf("Get(%s) on the restored state: %v", q.Cid, err)
+			}
+			if got := cmpx.PinStr(g, cmpx.Stored); got != want[q.Cid.String()] {
+				t.Fatalf("restored pin %s differs (Get): %s", q.Cid, cmpx.Diff(want[q.Cid.String()], got))
+			}
+		}
+		leg.Case(strings.Join(all, " || "), rich >= 2)
 	})
 }
 
